@@ -32,6 +32,10 @@ SANITIZERS = {'opensmt::Logic::protectName'}
 SIMPLE_SYMBOL_CHARS = set('ABCDEFGHIJKLMNOPQRSTUVWXYZabcdefghijklmnopqrstuvwxyz0123456789~!@$%^&*_-+=<>.?/')
 
 
+def is_named_call(n, name):
+    return n.get('k') == 'call' and callee(n).split('::')[-1] == name
+
+
 def sink_pred(root, types):
     if root.get('k') == 'ref' and root.get('d') == 'global' and root['n'] in ('std::cout', 'cout'):
         return 'std::cout'
@@ -52,7 +56,7 @@ def run(src, tier, seed):
     fx = Facts(src)
     res = Result('C17')
     res.assumptions += ['raw-name sources, the sanitiser and the sinks are the tables at the top of sa/rules/C17.py; names stored in TemplateFunction/FunctionSignature '
-                        'objects are not tracked through the object (their producers are: the model builders pass protectName results)',
+                        'objects are tracked: constructor arguments label the object and getName() returns its label',
                         'labels only grow from table entries, so an unknown callee can hide a flow (a miss) but cannot create a report']
 
     # ---- R1 the quoting predicate
@@ -99,6 +103,19 @@ def run(src, tier, seed):
     # ---- R3 parser text echoed to the response channel
     r = res.rule('echo-distinguishes-quoted-symbols', 'a function that writes ASTNode text to std::cout tests the token kind QSYM_T (the lexer strips the bars of quoted symbols)', floor=1)
     echo_rule(fx, res, r)
+    # ---- R3b the (as name Sort) qualification depends on the symbols declared at print time
+    r = res.rule('disambiguation-at-print-time', 'every path through Logic::symToString calls protectName and disambiguateName: whether a nullary name needs the `(as name Sort)` form depends on '
+                 'which homonymous symbols exist when it is printed, so the answer cannot be reused from an earlier call', floor=1)
+    from prims import must_call
+    sts = fx.func('opensmt::Logic::symToString')
+    exits, eng = must_call(sts, {'protect': lambda n: is_named_call(n, 'protectName'), 'disamb': lambda n: is_named_call(n, 'disambiguateName')})
+    badp = [nd for k_, nd, st in exits if k_ == 'return' and not {'protect', 'disamb'} <= st]
+    if badp:
+        res.bad(r, 'symbol-string-reused', fx.loc(sts), 'Logic::symToString can return (line %s) without calling protectName / disambiguateName on that path: a string computed while the name was '
+                'unique is printed after a second symbol with the same name was declared, and the output no longer reads back (ambiguous symbol)' % sorted({n_.get('ln') for n_ in badp}))
+    else:
+        res.ok(r, 'symToString computes the protected, disambiguated name on every path')
+
     # ---- R4 let-dump: a node is printed only after every child that will be referred to by its ?def name has one
     r = res.rule('let-dump-postorder', 'in Logic::dumpWithLets every path through one iteration of the child scan on which the child has no definition yet and is of a kind that is '
                  'printed by its definition name raises the wait flag, so the parent is not printed with an empty operand', floor=2)
